@@ -80,6 +80,30 @@ def public_call(seq, op):
         seq.merge([arg])
     elif op == "quantise_and_normalise":
         seq.quantise_and_normalise([4], [4, 8, 12])
+    elif op == "late_iter_abs":
+        it = seq.messages_abs()
+        seq.set_channel(2)
+        for _ in it:
+            pass
+    elif op == "late_iter_rel":
+        it = seq.messages_rel()
+        seq.add_absolute_message(P.mk(P.cc(5, 7, 99)))
+        for _ in it:
+            pass
+    elif op == "scale_down_self_meta":
+        # halving is only defined here for contents it halves exactly (whole bars, even ticks, one signature); on any
+        # other content the call realises a plain relative mutator instead
+        probe, ok = copy.deepcopy(seq), True
+        try:
+            probe.scale(0.5, meta_sequence=probe, quantise_afterwards=False)
+            v = P.views(probe)
+            ok = v["readable"] and all(m["t"] != -999 for m in v["abs"] + v["rel"])
+        except Exception:
+            ok = False
+        if not ok:
+            seq.pad(40)
+            return seq, "pad"
+        seq.scale(0.5, meta_sequence=seq, quantise_afterwards=False)
     elif op == "scale_requantise":
         seq.scale(2)
     elif op == "transpose_wrap":
